@@ -252,7 +252,7 @@ Lemma rule_call_eq (ev : @ev_t gstate) rl r k st :
       | (RFail, ran) =>
         let st3 := if ran then log_body st2 r else st2 in
         (RFail, memoize ec rl st3 k OFail)
-      | (RFatal x, ran) => (RFatal x, if ran then log_body st2 r else st2)
+      | (RFatal x, ran) => (RFatal x, if ran then log_raise (log_body st2 r) x else st2)
       end
     | (Fail _, st2) => (RFail, memoize ec rl st2 k OFail)
     | (Fatal x, st2) => (RFatal x, st2)
